@@ -104,6 +104,14 @@ class StmtMixin:
             return py(Builtin(name), "builtin")
         if name in CLASSES.by_name:
             return py(PyClass(name), "class")
+        root = getattr(self, "root_func", None)
+        if root is not None and not self.in_spec and not isinstance(root.node, ast.Lambda):
+            if not hasattr(root, "_assigned"):
+                root._assigned = assigned_names(root.node.body)
+            if name in root._assigned:
+                # a local of the function that is not bound on this path: Python raises
+                # UnboundLocalError (an implicit exception: only wd units have to account for it)
+                raise self.implicit("UnboundLocalError", name)
         raise Unsupported(f"unresolved name {name!r} in {mi.relpath}")
 
     def frame_mi(self, frame):
@@ -213,6 +221,21 @@ class StmtMixin:
 
     def exec_stmt(self, s, frame):
         self.cur_line = getattr(s, "lineno", 0)
+        regs = getattr(self.unit, "regions", None) if self.unit is not None else None
+        if regs:
+            # a statement that is the region of ANOTHER unit (named in `regions`) is replaced by
+            # that unit's contract: its requires become CALL obligations here
+            key = None
+            if isinstance(s, ast.If):
+                key = "if:" + ast.unparse(s.test)
+            elif isinstance(s, ast.Assign) and len(s.targets) == 1:
+                key = "assign:" + ast.unparse(s.targets[0])
+            if key is not None and key in regs and not getattr(self, "_in_region_apply", False):
+                from .contracts import REGISTRY
+
+                bu = REGISTRY[regs[key]]
+                if bu is not self.unit:
+                    return self.apply_region(bu, frame, [s], key)
         m = getattr(self, "st_" + type(s).__name__, None)
         if m is None:
             raise Unsupported(f"statement {type(s).__name__} at line {s.lineno}")
